@@ -141,8 +141,11 @@ func replayDet(line []byte, a *Acc) {
 			// prefix / indent strings made of blanks, tabs and spaces of equal width after one another: the prefixed form is the
 			// unprefixed form with the prefix in front of every line (whatever was encoded before), and token-equal to the compact form
 			if rep == 0 && !strings.Contains(l.X, "\n") {
-				for _, pi := range [][2]string{{"\t\t", "\t"}, {"  ", "\t"}, {" ", "  "}, {"\t", "  "}, {"  ", " "}, {"\t\t", " "}} {
+				for _, pi := range [][2]string{{"\t\t", "\t"}, {"  ", "\t"}, {" ", "  "}, {"\t", "  "}, {"  ", " "}, {"\t\t", " "}, {"  ", "  "}} {
 					plain, e0 := m.XmlIndent("", pi[1])
+					// (in between, an encode whose first-level indentation reads the same as the next call's: what an encode
+					// leaves behind for later ones must not depend on such a coincidence)
+					m.XmlIndent("", pi[0]+pi[1])
 					pref, e1 := m.XmlIndent(pi[0], pi[1])
 					want := pi[0] + strings.ReplaceAll(string(plain), "\n", "\n"+pi[0])
 					tp, te := significantTokens(pref, false)
